@@ -203,6 +203,17 @@ def cases(rng, n_extra):
     for (t, f) in ITYPES:
         add("slice2-idxtype", "s := mk(3); t := s[%s(1):%s(6)]; println(len(t))" % (f, f))
         add("slice2-idxtype", "s := mk(3); t := s[%s(1):%s(4)]; println(len(t), cap(t))" % (f, f))
+    # ---- bounds of NARROW UNSIGNED types with the top bit set (must be zero-extended, never sign-extended): in range => no panic
+    for (t, f, v) in (("uint8", "ou8", 200), ("uint16", "ou16", 40000), ("uint32", "ou32", 3000000000)):
+        n = 300 if t == "uint8" else 70000
+        if t != "uint32":
+            add("narrow-unsigned-bound", "s := make([]byte, %d); t := s[%s(%d):]; println(len(t), cap(t))" % (n, f, v))
+            add("narrow-unsigned-bound", "s := make([]byte, %d); t := s[:%s(%d)]; println(len(t))" % (n, f, v))
+            add("narrow-unsigned-bound", "s := make([]byte, %d); t := s[1:%s(%d):%s(%d)]; println(len(t), cap(t))" % (n, f, v, f, v))
+            add("narrow-unsigned-bound", "s := make([]byte, %s(%d)); println(len(s), cap(s))" % (f, v))
+            add("narrow-unsigned-bound", "s := make([]int32, 1, %s(%d)); println(len(s), cap(s))" % (f, v))
+            add("narrow-unsigned-bound", "s := make([]byte, %d); s[%s(%d)] = 7; println(s[%s(%d)])" % (n, f, v, f, v))
+        add("narrow-unsigned-bound", "s := mk(3); i := %s(%d); println(s[i])" % (f, v))
     # ---- nil pointer dereference
     add("nil-deref", "p := nilptr(); println(*p)")
     add("nil-deref", "p := nilptr(); *p = 3; println(1)")
